@@ -441,6 +441,25 @@ func (f *Follower) endInstr(got ref.Regs) {
 		} else {
 			if got != p.Regs {
 				f.violate("C01", name+"-registers", fmt.Sprintf("%s at PC=%04X: before %+v, after %+v, documented %+v", name, f.regs0.PC, f.regs0, got, p.Regs))
+				// did the CPU skip ahead in time? If the documented execution, carried on from
+				// the documented state, reaches exactly the state the CPU is in after some more
+				// (store-free) instructions, the CPU got there without spending their cycles.
+				st, extra := p.Regs, 0
+				for n := 0; n < 6 && st != got; n++ {
+					nx := ref.Exec(st, func(a uint16) uint8 { return Peek(m, a) }, false)
+					stores := false
+					for _, a := range nx.Acc {
+						stores = stores || a.Write
+					}
+					if stores || nx.Halt || nx.Stop || nx.IME != 0 || volatile(st.PC) {
+						extra = -1
+						break
+					}
+					st, extra = nx.Regs, extra+nx.Cycles
+				}
+				if st == got && extra > 0 {
+					f.violate("C02", name+"-skips-ahead", fmt.Sprintf("%s at PC=%04X took %d machine cycles and left the CPU at PC=%04X, a state the documented execution reaches only %d machine cycles later (after the instructions that follow at %04X)", name, f.regs0.PC, f.cyc, got.PC, extra, p.Regs.PC))
+				}
 			}
 			if got.F&0x0f != 0 {
 				f.violate("C01", "flag-low-nibble", fmt.Sprintf("F=%02X after %s", got.F, name))
